@@ -140,6 +140,30 @@ var C14 = &sqrun.Check{ID: "C14", QuickBudget: 60, ThoroughBudget: 600,
 					k.fail("C14: UnmarshalText keeps a reference to the caller's buffer", fmt.Sprintf("EventID.UnmarshalText(%q): the value changed to %q when the caller overwrote its buffer", s, id3.String()), s)
 				}
 			}
+			// MarshalText hands out bytes the caller owns: overwriting them must not reach the value (the input is
+			// copied to the heap first so that a value aliasing it could be overwritten at all)
+			if !multiline(s) {
+				hs := string(append([]byte(nil), s...))
+				id6, ty6 := sse.ID(hs), sse.Type(hs)
+				b1, _ := id6.MarshalText()
+				b2, _ := ty6.MarshalText()
+				k.cases.Add(2)
+				if string(b1) != s || string(b2) != s {
+					k.fail("C14: MarshalText does not return the value", fmt.Sprintf("ID/Type(%q).MarshalText() = %q / %q", s, b1, b2), s)
+				}
+				for j := range b1 {
+					b1[j] = '\n'
+				}
+				for j := range b2 {
+					b2[j] = '\r'
+				}
+				if id6.String() != s || ty6.String() != s {
+					k.fail("C14: MarshalText hands out the value's own bytes", fmt.Sprintf("after the caller overwrote the result of MarshalText the ID %q reads %q and the type reads %q", s, id6.String(), ty6.String()), map[string]string{"route": "MarshalText", "input": s})
+				} else {
+					judge("EventID.MarshalText (caller overwrites the result)", s, id6, nil, false, true)
+					judge("EventType.MarshalText (caller overwrites the result)", s, ty6, nil, false, false)
+				}
+			}
 			// JSON
 			js, _ := json.Marshal(s)
 			docs := []string{string(js), strings.NewReplacer(`\n`, `\u000a`, `\r`, `\u000D`).Replace(string(js))}
@@ -252,7 +276,7 @@ var C14 = &sqrun.Check{ID: "C14", QuickBudget: 60, ThoroughBudget: 600,
 		cov := ev.Coverage{"evaluations": k.cases.Load(), "distinct_nontrivial": k.nontriv.Load(), "exhaustive": k.exhaustive(),
 			"input_strings": len(inputs), "wire_texts": len(wires),
 			"samples": []any{map[string]string{"route": "EventID.Scan(string)", "input": "a\ndata: x"}, map[string]string{"route": "Upgrade", "header": "a\r"}},
-			"rule":    fmt.Sprintf("every string of <= %d tokens over %q through every route (NewID, NewType, ID, Type, UnmarshalText incl. later buffer reuse, UnmarshalJSON with raw and \\u escapes, Scan as string and []byte, the Last-Event-Id header given to Upgrade) plus non-string JSON documents and driver values; every wire text of <= %d tokens over %q through Message.UnmarshalText, on its own and right after each of %d other texts (LF-only, CR-only, with BOM, truncated) with the results compared. Non-trivial = the input contains CR or LF (resp. the wire text yields a set ID or type).", L, c14Tokens, WL, c14Wire, len(c14Before))}
+			"rule":    fmt.Sprintf("every string of <= %d tokens over %q through every route (NewID, NewType, ID, Type, UnmarshalText incl. later buffer reuse, MarshalText with the result overwritten by the caller, UnmarshalJSON with raw and \\u escapes, Scan as string and []byte, the Last-Event-Id header given to Upgrade) plus non-string JSON documents and driver values; every wire text of <= %d tokens over %q through Message.UnmarshalText, on its own and right after each of %d other texts (LF-only, CR-only, with BOM, truncated) with the results compared. Non-trivial = the input contains CR or LF (resp. the wire text yields a set ID or type).", L, c14Tokens, WL, c14Wire, len(c14Before))}
 		return &sqrun.Outcome{Level: "exploration", Coverage: cov}
 	},
 }
